@@ -34,7 +34,8 @@ class Fn:
 
     def __init__(self, cname, tu, name, flt=None, select=None, kinds=('CXXMethodDecl', 'FunctionDecl', 'CXXConstructorDecl'),
                  self_struct=None, types=(), calls=(), members=(), hooks=(), stmt_hooks=(), aggregates=(),
-                 ret=None, lambda_index=None, extra_params=(), post=None, uf_float=True, opaque=()):
+                 ret=None, lambda_index=None, extra_params=(), post=None, uf_float=True, opaque=(), lambda_select=None):
+        self.lambda_select = lambda_select
         self.uf_float = uf_float
         self.opaque = opaque
         self.cname = cname
@@ -60,10 +61,14 @@ class Fn:
             if self.lambda_index >= len(lams):
                 raise ExtractionError(f'{self.cname}: lambda #{self.lambda_index} not found ({len(lams)} lambdas)')
             lam = lams[self.lambda_index]
-            ops = [m for m in astload.walk(lam) if m.get('kind') == 'CXXMethodDecl' and m.get('name') == 'operator()']
-            if not ops:
-                raise ExtractionError(f'{self.cname}: lambda without operator()')
-            d = ops[0]
+            ops = [m for m in astload.walk(lam) if m.get('kind') == 'CXXMethodDecl' and m.get('name') == 'operator()' and astload.has_body(m)]
+            # a generic lambda (auto parameters) has a template pattern plus instantiations: take an instantiation
+            inst = [m for m in ops if not any('auto' in t for t in astload.param_types(m))]
+            if self.select is not None and self.lambda_select is not None:
+                inst = [m for m in inst if self.lambda_select(m)]
+            if not inst:
+                raise ExtractionError(f'{self.cname}: lambda without an instantiated operator()')
+            d = inst[0]
         P = cxx2c.Printer(self.cname, self.types, self.calls, self.members, self.hooks, self.self_struct,
                           self.aggregates, self.stmt_hooks, self.uf_float, self.opaque)
         P.default_file = loc.get('file') or loc.get('expansionLoc', {}).get('file') or loc.get('spellingLoc', {}).get('file') or astload.resolve_tu(self.tu)
